@@ -106,3 +106,16 @@ Definition check_forward_of_identity (tol : Q) (m : lmodel) (obs : option (list 
   mat_ok tol obs (forward_of_identity m).
 Definition check_adjoint_of_identity (tol : Q) (m : lmodel) (obs : option (list (list Qc))) : bool :=
   mat_ok tol obs (adjoint_of_identity m).
+
+(* a 2-d batch handed to a model AS IT IS (the real path: par2fun, the callable on the 2-d array, fun2par): obs = (rows, columns,
+   row-major entries) of the 2-d array that came back *)
+Definition val2_ok (tol : Q) (obs : option (nat * nat * list Qc)) (mod_ : option val) : bool :=
+  match obs, mod_ with
+  | None, None => true
+  | Some (r, c, l), Some (V2 r' c' l') => (r =? r')%nat && (c =? c')%nat && qcl_close tol l l'
+  | _, _ => false
+  end.
+Definition check_forward_batch (tol : Q) (m : lmodel) (r c : nat) (flat : list Qc) (obs : option (nat * nat * list Qc)) : bool :=
+  val2_ok tol obs (forward m (V2 r c flat)).
+Definition check_adjoint_batch (tol : Q) (m : lmodel) (r c : nat) (flat : list Qc) (obs : option (nat * nat * list Qc)) : bool :=
+  val2_ok tol obs (adjoint m (V2 r c flat)).
